@@ -259,7 +259,9 @@ class FutSys:
             self.problems.append(('wallet', sig, 'wallet %r, model %r' % (ex.wallet_balance, float(ref.w))))
         for s in self.syms:
             p = self.pos[s]
-            if not near(p.qty, ref.q[s], abs_=1e-9):
+            if p.is_open != (ref.q[s] != 0):
+                self.problems.append(('position-open-flag', sig, '%s position is_open=%s with qty %r, model qty %r' % (s, p.is_open, p.qty, float(ref.q[s]))))
+            elif not near(p.qty, ref.q[s], abs_=1e-9):
                 self.problems.append(('position-qty', sig, '%s qty %r, model %r' % (s, p.qty, float(ref.q[s]))))
             elif ref.q[s] != 0:
                 if p.entry_price is None or not near(p.entry_price, ref.e[s]):
@@ -298,7 +300,9 @@ def configs(ctx):
         out.append((dict(rich, L=2, fee=0.001), 4))
         out.append((dict(lean, L=10, fee=0.001), 5))
         out.append((dict(two, L=5, fee=0.0), 5))
+        out.append((dict(lean, L=3, fee=0.001, qtys=[0.1, 0.2, 0.3], prices=['M'], marks=[]), 5))     # quantities that do not sum exactly in binary
     else:
+        out.append((dict(lean, L=3, fee=0.001, qtys=[0.1, 0.2, 0.3], prices=[0.9, 1.1, 'M'], marks=[]), 5))
         for L, fee in ((1, 0.001), (2, 0.001), (10, 0.0)):
             out.append((dict(rich, L=L, fee=fee), 5))
         out.append((dict(rich, L=3, fee=0.001, max_live=3, qtys=[1.0, 2.0, 0.5]), 4))
